@@ -340,7 +340,8 @@ def HMem.popAllK (cmp : Int → Int → Bool) (h : Nat) : Nat → HMem → Optio
 `HState` = the element memory plus `h.cmp` of each heap (the comparator it was created with by
 `New` or last given to `Init`). `HOp` = one call a client can make on one of the two heaps
 (`h.val`), `HRet` = what it gets back. `init h c vs` is `h.Init(vs, c)`: it installs `c` as the
-heap's comparator; `setFix h e v` is `e.Value = v; h.Fix(e)`. The driver (`Model/C04.lean`) runs
+heap's comparator; `setFix h e v` is `e.Value = v; h.Fix(e)`, `setRemove h e v` is `e.Value = v; h.Remove(e)` (the use
+the package doc blesses: Fix = Remove + Push of the new value). The driver (`Model/C04.lean`) runs
 exactly this function; `c04_heap_handles` is stated about it. -/
 
 structure HState where
@@ -368,6 +369,7 @@ inductive HOp where
   | remove (h : Fin 2) (e : Nat)
   | fix (h : Fin 2) (e : Nat)
   | setFix (h : Fin 2) (e : Nat) (v : Int)
+  | setRemove (h : Fin 2) (e : Nat) (v : Int)
   | popAll (h : Fin 2)
   | popAllN (h : Fin 2) (k : Nat)
 
@@ -390,6 +392,9 @@ def stepH (st : HState) : HOp → Option (HState × HRet)
   | .fix h e => (st.m.fixElem (st.cmp h.val) h.val e).map fun m1 => ({ st with m := m1 }, .unit)
   | .setFix h e v =>
     (({ st.m with val := st.m.val.set e v } : HMem).fixElem (st.cmp h.val) h.val e).map
+      fun m1 => ({ st with m := m1 }, .unit)
+  | .setRemove h e v =>
+    (({ st.m with val := st.m.val.set e v } : HMem).remove (st.cmp h.val) h.val e).map
       fun m1 => ({ st with m := m1 }, .unit)
   | .popAll h =>
     (HMem.popAll (st.cmp h.val) h.val ((st.m.arr h.val).length + 1) st.m).map
